@@ -21,7 +21,9 @@ import (
 	"os"
 	"os/exec"
 	"runtime"
+	"strings"
 	"sync"
+	"sync/atomic"
 	"syscall"
 	"time"
 
@@ -105,16 +107,17 @@ type Case struct {
 	Stop      *StopC  `json:"stop,omitempty"`
 	TimeoutUs int     `json:"timeout,omitempty"`
 	// observed
-	Events    []Ev   `json:"events"`
-	Final     []Fin  `json:"final"`
-	Err       bool   `json:"err"`
-	Status    int    `json:"status"`
-	HFinal    []int  `json:"hfinal,omitempty"` // final status of the handler nodes (exit, success, failure, cancel; -1 = not configured)
-	StatusEnd int    `json:"status_end"`       // Status(g) after a late stop request (if any) has returned
-	StartedUs int64  `json:"started"`          // when Schedule started the graph (the DAG deadline is this + timeout)
-	Hung      bool   `json:"hung,omitempty"`
-	WallUs    int64  `json:"wall"`
-	Note      string `json:"note,omitempty"`
+	Events     []Ev   `json:"events"`
+	Final      []Fin  `json:"final"`
+	Err        bool   `json:"err"`
+	Status     int    `json:"status"`
+	HFinal     []int  `json:"hfinal,omitempty"` // final status of the handler nodes (exit, success, failure, cancel; -1 = not configured)
+	StatusEnd  int    `json:"status_end"`       // Status(g) after a late stop request (if any) has returned
+	StartedUs  int64  `json:"started"`          // when Schedule started the graph (the DAG deadline is this + timeout)
+	Hung       bool   `json:"hung,omitempty"`
+	Terminated bool   `json:"terminated"` // Schedule returned by itself within the watchdog time
+	WallUs     int64  `json:"wall"`
+	Note       string `json:"note,omitempty"`
 }
 
 // ---------------------------------------------------------------------------------------------
@@ -334,7 +337,32 @@ var quietLogger = logger.NewLogger(logger.NewLoggerArgs{Quiet: true})
 var handlerNames = []string{"onExit", "onSuccess", "onFailure", "onCancel"}
 var handlerTypes = []dag.HandlerType{dag.HandlerOnExit, dag.HandlerOnSuccess, dag.HandlerOnFailure, dag.HandlerOnCancel}
 
+// watchdog: ordinary runs take milliseconds; a run that has not returned after this long is recorded as not terminated
+// (with the trace so far), unblocked with a stop request if possible, otherwise abandoned.  After maxHung such runs
+// (or when the driver's own time limit is reached) the remaining cases are skipped: the driver always ends.
+var (
+	watchdog   = 8 * time.Second
+	hungCount  int32
+	maxHung    int32 = 6
+	driverStop time.Time
+)
+
+func driverExhausted() string {
+	if atomic.LoadInt32(&hungCount) >= maxHung {
+		return "skipped: too many runs of this driver did not terminate"
+	}
+	if !driverStop.IsZero() && time.Now().After(driverStop) {
+		return "skipped: the driver's time limit was reached"
+	}
+	return ""
+}
+
 func runCase(c *Case, id int, logDir string) {
+	c.Events, c.Final, c.Err, c.Status, c.Hung, c.Note, c.HFinal, c.Terminated = nil, nil, false, 0, false, "", nil, false
+	if why := driverExhausted(); why != "" {
+		c.Note = why
+		return
+	}
 	n := len(c.Steps)
 	steps := make([]dag.Step, n)
 	for i, sc := range c.Steps {
@@ -370,7 +398,6 @@ func runCase(c *Case, id int, logDir string) {
 		}
 		steps[i] = s
 	}
-	c.Events, c.Final, c.Err, c.Status, c.Hung, c.Note, c.HFinal = nil, nil, false, 0, false, "", nil
 	g, err := scheduler.NewExecutionGraph(quietLogger, steps...)
 	if err != nil {
 		c.Note = "graph refused: " + err.Error()
@@ -430,20 +457,24 @@ func runCase(c *Case, id int, logDir string) {
 	var serr error
 	select {
 	case serr = <-fin:
-	case <-time.After(20 * time.Second):
+	case <-time.After(watchdog):
 		c.Hung = true
+		atomic.AddInt32(&hungCount, 1)
 		close(w.stop)
+		go sc.Signal(g, syscall.SIGKILL, nil, false) // try to unblock: a stopped run must end
 		cancel()
 		select {
 		case serr = <-fin:
-		case <-time.After(5 * time.Second):
-			c.Note = "run abandoned"
+			c.Note = "did not terminate by itself within the watchdog time; ended after a stop request"
+		case <-time.After(3 * time.Second):
+			c.Note = "did not terminate within the watchdog time, not even after a stop request: run abandoned"
 		}
 	}
+	c.Terminated = !c.Hung
 	if !c.Hung {
 		close(w.stop)
 	}
-	if done != nil && c.Note == "" {
+	if done != nil && !strings.HasSuffix(c.Note, "abandoned") {
 		close(done)
 	}
 	c.Status = int(sc.Status(g)) // before a late stop can change it: the stop below is waited for afterwards
@@ -900,10 +931,19 @@ func runFresh(c *Case, id int, logDir string) {
 		c.Note = "fresh: " + err.Error()
 		return
 	}
-	cmd := exec.Command(os.Args[0], outp, "child", in)
+	cctx, ccancel := context.WithTimeout(context.Background(), 40*time.Second)
+	defer ccancel()
+	cmd := exec.CommandContext(cctx, os.Args[0], outp, "child", in)
 	cmd.Env = startEnv // the scheduler exports one variable per node id into this process; children get the original
+	if why := driverExhausted(); why != "" {
+		c.Note = why
+		return
+	}
 	if o, err := cmd.CombinedOutput(); err != nil {
 		c.Note = fmt.Sprintf("fresh process failed: %v %s", err, string(o))
+		if cctx.Err() != nil {
+			atomic.AddInt32(&hungCount, 1)
+		}
 		return
 	}
 	res := readCases(outp)
@@ -914,6 +954,9 @@ func runFresh(c *Case, id int, logDir string) {
 	k := c.K
 	*c = res[0]
 	c.K = k
+	if c.Hung {
+		atomic.AddInt32(&hungCount, 1)
+	}
 	os.Remove(in)
 	os.Remove(outp)
 }
@@ -979,6 +1022,21 @@ func main() {
 		focus = os.Args[3]
 	}
 	rng := vh.NewRng(vh.SeedFromEnv())
+	limit := 300 * time.Second
+	if tier == "thorough" {
+		limit = 1500 * time.Second
+	}
+	if v := os.Getenv("VERIF_SCHED_LIMIT_S"); v != "" {
+		var s int
+		fmt.Sscanf(v, "%d", &s)
+		limit = time.Duration(s) * time.Second
+	}
+	driverStop = time.Now().Add(limit)
+	if v := os.Getenv("VERIF_SCHED_WATCHDOG_MS"); v != "" {
+		var ms int
+		fmt.Sscanf(v, "%d", &ms)
+		watchdog = time.Duration(ms) * time.Millisecond
+	}
 	var cases []Case
 	if tier == "replay" || tier == "child" {
 		cases = readCases(os.Args[3])
